@@ -162,6 +162,11 @@ type IndexedColumn struct {
 
 func newIndexColumn(e Expression, collate string, sort SortOrder) IndexedColumn {
 	col := AsColumn(e)
+	if lit, ok := e.(string); ok {
+		// SQLite reads a string literal in this place as a name:
+		// CREATE INDEX i ON t('a') is an index on column a.
+		col = lit
+	}
 	ex := ""
 	if col == "" {
 		ex = AsString(e)
